@@ -17,7 +17,7 @@ def hx(b):
 class C13(Prop):
     id = "C13"
     title = "Input framing ignores packet boundaries and survives any byte stream"
-    lean_modules = ["NV.C13.Props", "NV.C13.Witness"]
+    lean_modules = ["NV.C13.Props", "NV.C13.Witness", "NV.C13.Negative"]
     theorems = ["NV.C13.ts_layout", "NV.C13.sb_array_has_room", "NV.C13.sb_in_bounds", "NV.C13.copy_chars_expansion",
                 "NV.C13.buffer_writes_in_bounds", "NV.C13.space_rule_sufficient", "NV.C13.space_rule_numbers",
                 "NV.C13.input_never_overflows", "NV.C13.segmentation_independent",
@@ -26,7 +26,10 @@ class C13(Prop):
                 "NV.C13.framing_never_crashes", "NV.C13.fRun_never_crashes", "NV.C13.telnet_lines_delivered",
                 "NV.C13.telnet_schedule_independent", "NV.C13.telnet_read_exact", "NV.C13.extract_exact",
                 "NV.C13.lines_eq_cmdsOf", "NV.C13.ascii_lines_delivered", "NV.C13.ascii_read_exact",
-                "NV.C13.copyCharsO_ok", "NV.C13.asciiLoop_exact", "NV.C13.getUserData_ok"]
+                "NV.C13.copyCharsO_ok", "NV.C13.asciiLoop_exact", "NV.C13.getUserData_ok",
+                "NV.C13.single_char_extraction_safe", "NV.C13.run_never_crashes", "NV.C13.getUserData_N",
+                "NV.C13.addConsoleLine_N", "NV.C13.console_lines_delivered", "NV.C13.console_line_exact",
+                "NV.C13.consoleLines_eq_cmdsOf", "NV.C13.statement_order_tie"]
     witness_theorems = ["NV.C13.sb_terminator_overflows_exact_array", "NV.C13.ayt_returns_to_data",
                         "NV.C13.full_sb_payload_is_not_text", "NV.C13.ascii_spec_example",
                         "NV.C13.burst_check", "NV.C13.telnet_lines_delivered_Full_false"]
@@ -69,7 +72,13 @@ class C13(Prop):
                   "comm.c; the correspondence harness (recv/send interposed, apply renamed inside the included comm.c); "
                   "single-character mode is modelled for memory safety only; NOECHO, snooping, ed and the LPC side of "
                   "process_input are not modelled")
-    rule = ("cases = corpus + known-finding inputs + boundary list + seeded streams (text, CR/LF/NUL mixes, IAC "
+    rule = ("quantifier coverage: streams = text, CR/LF/NUL combinations, IAC negotiations, complete / incomplete / "
+            "oversized (97..300 byte) sub-negotiations, 8-bit data, lines of 600..4200 bytes (> 2 KiB buffer); "
+            "segmentations = unsplit, ALL 2-splits of streams <= 28 bytes, random k-splits, 1-byte reads, reads on an "
+            "empty socket; ports = telnet, ascii, binary, console; interleavings = extraction at the end / after each "
+            "read / at random; callbacks = ok / LPC error / destruct at random ordinals; single-char mode switched on at "
+            "a random read.  "
+            "cases = corpus + known-finding inputs + boundary list + seeded streams (text, CR/LF/NUL mixes, IAC "
             "negotiations, complete/incomplete/oversized sub-negotiations, 8-bit data, lines > 2 KiB) x segmentations "
             "(all 2-splits of short streams, random k-splits, 1-byte reads) x extraction interleavings on telnet, ascii, "
             "binary ports and the console; non-trivial = trace has >= 2 lines; distinct = distinct canonical trace")
@@ -110,6 +119,40 @@ class C13(Prop):
         v = need("ascii space", r"text_space = MAX_TEXT - ip->text_end - (\d+);", count=1)
         out.append("/-- C: get_user_data PORT_ASCII/BINARY `text_space = MAX_TEXT - ip->text_end - N` -/\ndef asciiReserve : Nat := %d" % v)
         need("console guard", r"if \(ip->text_end \+ len >= (MAX_TEXT)(?: && !cmd_in_buf \(ip\))?\)", str, count=2)
+        # statement order (T4): the PORT_ASCII line loop and add_console_line's checks, as the order of named
+        # statements in the source text; the model states the order it implements and a bridging lemma compares
+        def order(name, region_start, region_end, stmts):
+            a = src.find(region_start)
+            b = src.find(region_end, a + 1) if a >= 0 else -1
+            if a < 0 or b < 0:
+                raise X.TieBroken("order:" + name, "cannot locate the %s region in src/comm.c" % name)
+            region = src[a:b]
+            pos = []
+            for label, text in stmts:
+                i = region.find(text)
+                if i < 0 or region.find(text, i + 1) >= 0:
+                    raise X.TieBroken("order:" + name, "statement %r of %s missing or ambiguous" % (text, name))
+                pos.append((i, label))
+            return [l for _, l in sorted(pos)]
+
+        o1 = order("ascii loop", "while ((nl = memchr (p, '\\n', ip->text_end - ip->text_start)))", "case PORT_BINARY:",
+                   [("commitStart", "ip->text_start = (nl + 1) - ip->text;"), ("storeNul", "*nl = 0;"),
+                    ("callback", "apply (APPLY_PROCESS_INPUT, ip->ob, 1, ORIGIN_DRIVER);"),
+                    ("revalidate", "if (user_ob->interactive != ip)"), ("resetTest", "if (ip->text_start == ip->text_end)"),
+                    ("advance", "p = nl + 1;"), ("moveRest", "memmove (ip->text, ip->text + ip->text_start, ip->text_end - ip->text_start);")])
+        out.append("/-- C: order of the statements of the PORT_ASCII line loop of get_user_data -/\ndef asciiLoopOrder : List String := [%s]"
+                   % ", ".join('"%s"' % x for x in o1))
+        o2 = order("add_console_line", "static void add_console_line (", "/* Convert newlines to null terminators",
+                   [("emptyTest", "if (len <= 0)"), ("makeRoomTest", "if (ip->text_end + len >= MAX_TEXT && !cmd_in_buf (ip))"),
+                    ("discard", "ip->text_end = 0;"), ("fitTest", "if (ip->text_end + len >= MAX_TEXT)\n")])
+        out.append("/-- C: order of the space checks of add_console_line -/\ndef consoleCheckOrder : List String := [%s]"
+                   % ", ".join('"%s"' % x for x in o2))
+        o3 = order("get_user_data telnet store", "case PORT_TELNET:\n          /*\n           * Process TELNET protocol", "case PORT_ASCII:\n          {",
+                   [("copyChars", "size_t copied = copy_chars ("), ("deadTest", "if (copied == (size_t) -1)"),
+                    ("advanceEnd", "ip->text_end += copied;"), ("terminator", "ip->text[ip->text_end] = '\\0';"),
+                    ("cmdFlag", "if (cmd_in_buf (ip))")])
+        out.append("/-- C: order of the statements of get_user_data's PORT_TELNET branch -/\ndef telnetStoreOrder : List String := [%s]"
+                   % ", ".join('"%s"' % x for x in o3))
         cfg = open(os.path.join(bdir, "config.h"), errors="replace").read()
         pk = re.search(r'#define PACKAGE "([^"]*)"', cfg)
         ve = re.search(r'#define VERSION "([^"]*)"', cfg)
@@ -237,7 +280,11 @@ class C13(Prop):
         for i, c in enumerate(chunks):
             if single_at is not None and i == single_at:
                 lines.append("iflag single")
+            if single_at is not None and rng is not None and i > single_at and rng.chance(1, 3):
+                lines.append(rng.choice(["iflag line", "iflag single"]))
             lines.append(("line " if console else "chunk ") + hx(c))
+            if rng is not None and not console and rng.chance(1, 12):
+                lines.append("read")          # a read event with (probably) nothing in the socket
             if port in ("telnet", "console"):
                 if inter == "each":
                     lines.append("drain")
@@ -285,6 +332,15 @@ class C13(Prop):
         add("cb-telnet-naws-err-split", "telnet", [b"lo", b"ok" + crlf + naws[:5], naws[5:] + b"n" + crlf + tt + b"s" + crlf], cbs=[(0, "err"), (1, "err")])
         add("cb-telnet-dest", "telnet", [b"look" + crlf + tt + b"north" + crlf, b"south" + crlf], cbs=[(0, "dest")])
         add("cb-telnet-subopt-dest-second", "telnet", [tt + bytes([IAC, SB, 70, 65, IAC, SE]) + b"x" + crlf], cbs=[(1, "dest")])
+        # read events with nothing in the socket (EWOULDBLOCK), also right after an aborted ascii read and in the
+        # compaction / discard range of the telnet port
+        B.append(E.Case("b-wouldblock-telnet", ["port telnet", "read", "chunk " + hx(b"a\r"), "read", "chunk " + hx(b"\nb\r\n"), "read", "drain", "read"],
+                        {"origin": "boundary"}))
+        B.append(E.Case("b-wouldblock-ascii-after-abort", ["cb 0 err", "port ascii", "chunk " + hx(b"a\nb\nc"), "read", "read", "chunk " + hx(b"\n"), "read"],
+                        {"origin": "boundary"}))
+        B.append(E.Case("b-wouldblock-telnet-full", ["port telnet", "chunk " + hx(b"z" * 682), "chunk " + hx(b"z" * 682), "chunk " + hx(b"z" * 682), "read", "read", "chunk " + hx(b"\r\nq\r\n"), "drain"],
+                        {"origin": "boundary"}))
+        B.append(E.Case("b-wouldblock-binary-console", ["port binary", "read", "chunk 00", "read"], {"origin": "boundary"}))
         # CR / LF / NUL combinations across reads
         add("cr-lf-split", "telnet", [b"hello\r", b"\nworld\r", b"\0x\r", b"\r\ny\r", b"z\r\n"])
         add("bare-lf-nul", "telnet", [b"a\nb\0c\0\0d" + crlf + crlf + b"\0" + crlf])
@@ -314,6 +370,9 @@ class C13(Prop):
         add("binary-verbatim", "binary", [bytes(range(256)), b"\xff\xfa\x18\xff\xf0\r\n\0", b"z" * 3000])
         # single character mode (memory safety only)
         add("single-char", "telnet", [b"a", b"b\r", b"\ncd\r\n", b"\r\r\r" + bytes([IAC, WILL, LM])], single_at=0, inter="each")
+        B.append(E.Case("b-single-then-line-partial-move", ["port telnet", "iflag single", "chunk " + hx(b"ab"), "iflag line", "extract",
+                        "chunk " + hx(b"c\r\n"), "drain", "iflag single", "chunk " + hx(b"\0\0xy"), "iflag line", "extract", "extract",
+                        "chunk " + hx(b"z\r\n"), "drain"], {"origin": "boundary"}))
         add("single-char-full", "telnet", [b"s" * 682, b"s" * 682, b"s" * 682, b"s" * 682], single_at=0, inter="end")
         return B
 
@@ -409,16 +468,29 @@ class C13(Prop):
         h = {"cases_by_port": {}, "reads": 0, "cmd": 0, "input": 0, "cb": 0, "tx": 0, "nocmd": 0, "wouldblock": 0,
              "discard_or_compaction_reads": 0, "max_text_end": 0, "max_sb_pos": 0, "closed": 0, "states_seen": {}}
         for c in cases:
-            body = [l for l in c.lines if l and not l.startswith("#")]
+            body = [l for l in c.lines if l.startswith("port ")]
             port = body[0].split()[-1] if body else "?"
+            for l in c.lines:
+                if l.startswith("cb "):
+                    h["scripted_" + l.split()[-1]] = h.get("scripted_" + l.split()[-1], 0) + 1
+                elif l == "iflag single":
+                    h["single_char_cases"] = h.get("single_char_cases", 0) + 1
             h["cases_by_port"][port] = h["cases_by_port"].get(port, 0) + 1
             prev_end = 0
             for l in impl.get(c.id, []):
                 t = l.split()
                 if not t:
                     continue
+                if t[0] == "err" and len(t) == 1:
+                    h["reads_left_through_error"] = h.get("reads_left_through_error", 0) + 1
+                elif t[0] == "err":
+                    h["callback_errors"] = h.get("callback_errors", 0) + 1
+                elif t[0] == "cl":
+                    h["console_blobs"] = h.get("console_blobs", 0) + 1
                 if t[0] == "ask":
                     h["reads"] += 1
+                    if t[1] == "2047" and prev_end == 2047:
+                        h["ascii_full_buffer_discards"] = h.get("ascii_full_buffer_discards", 0) + 1
                 elif t[0] in ("cmd", "input", "tx", "nocmd", "wouldblock", "closed"):
                     h[t[0]] += 1
                 elif t[0] == "cb":
